@@ -501,6 +501,9 @@ impl Space {
 // maps: one fixed key order
 
 const MKEYS: [&str; 4] = ["a", "b", "c", "d"];
+/// key sets of the key-order family: letters, and texts that look like numbers (an order "by
+/// value" is no total order on them: "1" and "01" and "+1" tie, "10" < "9" as text)
+const KEYSETS: [[&str; 4]; 3] = [["a", "b", "c", "d"], ["10", "9", "1a", "+1"], ["1", "01", "2", "b"]];
 
 fn permutations(n: usize) -> Vec<Vec<usize>> {
     fn rec(cur: &mut Vec<usize>, used: &mut Vec<bool>, n: usize, out: &mut Vec<Vec<usize>>) {
@@ -556,9 +559,11 @@ impl MapMacro {
 fn run_mapcase(idx: u64, acc: &mut Acc) {
     // idx -> (non-empty subset of 4 keys, macro)
     let nm = MAPMACROS.len() as u64;
+    let keyset = KEYSETS[(idx / (15 * nm)) as usize];
+    let idx = idx % (15 * nm);
     let subset = (idx / nm) as usize + 1;
     let mm = MAPMACROS[(idx % nm) as usize];
-    let keys: Vec<&str> = (0..4).filter(|i| subset & (1 << i) != 0).map(|i| MKEYS[i]).collect();
+    let keys: Vec<&str> = (0..4).filter(|i| subset & (1 << i) != 0).map(|i| keyset[i]).collect();
     let mut expected: Vec<String> = keys.iter().filter_map(|k| mm.image(k)).collect();
     expected.sort();
     let mut first: Option<(Vec<String>, String)> = None;
@@ -630,7 +635,7 @@ fn run_mapcase(idx: u64, acc: &mut Acc) {
             }
         }
     }
-    acc.nontrivial(&("maps", idx));
+    acc.nontrivial(&("maps", keyset, idx));
     if acc.wants_sample() {
         acc.sample(json!({"keys": keys, "macro": format!("{:?}", mm), "order_observed": first.map(|f| f.0)}));
     }
@@ -888,7 +893,7 @@ pub fn replay_families(t: Tier) -> Vec<Family<'static>> {
     let sp: &'static Space = Box::leak(Box::new(Space::new(t)));
     vec![
         Family::new("list-macros", sp.size(), move |i, a| sp.run(i, a)),
-        Family::new("map-key-order", 15 * MAPMACROS.len() as u64, run_mapcase),
+        Family::new("map-key-order", (KEYSETS.len() * 15 * MAPMACROS.len()) as u64, run_mapcase),
         Family::new("map-failing-bodies", failbody_size(), run_failbody),
         Family::new("typed-elements", typed_size(), run_typed),
         Family::new("shadowed-programs", shadow_size(), run_shadow),
@@ -899,7 +904,7 @@ pub fn run(t: Tier) -> i32 {
     let mut rep = Report::new(ID, t, "exploration");
     let sp = Space::new(t);
     rep.rule = format!(
-        "list-macros: {} lists (all lists of length <= {} over {{0,1,2}}, all 0/1 lists up to length {}, lists of length {} with at most {} ones - beyond the call-depth limit of 32) x {} macro forms (all/exists/exists_one/filter x 11 bodies, map/2 x 4, map/3 x 20, reduce x 6; bodies read the loop variable, an outer variable, a stored program, inner macros re-using the name or reading the outer loop variable, a call-recording function, fail at the element 1, or read an unbound name) x literal/bound list x outer binding of the loop variable name absent/100 x the name read before/after the macro; the result and the exact log of recorded calls (visiting order and stopping point) must equal the defining fold, and the caller's binding of the name must be unchanged. map-key-order: every non-empty subset of 4 keys x 5 macro forms, the map built in every insertion order as literal, literal with variable values, bound HashMap and JSON, evaluated twice each: a permutation of the images and always the same permutation. map-failing-bodies: the same key sets, orders and four ways of building the map x 4 macro forms (filter, map/2, map/3 predicate, map/3 expression) whose body divides by zero on the keys a and c, fails to convert on b and succeeds on d, four fresh programs each: the outcome (value, or class of the error - the first failing key decides it) must be the same for every instance of the same key set. typed-elements: all lists of length <= 3 over 10 elements of every type (strings, lists, maps, null, double, bool, bytes, uint) x 9 macro forms whose result is determined by identity and truthiness, literal and bound. shadowed-programs: all lists of length <= 3 over {{0,1,2}} x all macro forms with programs stored under the loop-variable names (x, acc). Non-trivial = every case; distinct by (index, form)",
+        "list-macros: {} lists (all lists of length <= {} over {{0,1,2}}, all 0/1 lists up to length {}, lists of length {} with at most {} ones - beyond the call-depth limit of 32) x {} macro forms (all/exists/exists_one/filter x 11 bodies, map/2 x 4, map/3 x 20, reduce x 6; bodies read the loop variable, an outer variable, a stored program, inner macros re-using the name or reading the outer loop variable, a call-recording function, fail at the element 1, or read an unbound name) x literal/bound list x outer binding of the loop variable name absent/100 x the name read before/after the macro; the result and the exact log of recorded calls (visiting order and stopping point) must equal the defining fold, and the caller's binding of the name must be unchanged. map-key-order: every non-empty subset of 4 keys (three key sets: letters, and two of texts that look like numbers - 10, 9, 1a, +1 and 1, 01, 2, b) x 5 macro forms, the map built in every insertion order as literal, literal with variable values, bound HashMap and JSON, evaluated twice each: a permutation of the images and always the same permutation. map-failing-bodies: the same key sets, orders and four ways of building the map x 4 macro forms (filter, map/2, map/3 predicate, map/3 expression) whose body divides by zero on the keys a and c, fails to convert on b and succeeds on d, four fresh programs each: the outcome (value, or class of the error - the first failing key decides it) must be the same for every instance of the same key set. typed-elements: all lists of length <= 3 over 10 elements of every type (strings, lists, maps, null, double, bool, bytes, uint) x 9 macro forms whose result is determined by identity and truthiness, literal and bound. shadowed-programs: all lists of length <= 3 over {{0,1,2}} x all macro forms with programs stored under the loop-variable names (x, acc). Non-trivial = every case; distinct by (index, form)",
         sp.lists.len(),
         t.pick(5, 6),
         t.pick(8, 10),
@@ -908,7 +913,7 @@ pub fn run(t: Tier) -> i32 {
         sp.forms.len()
     );
     rep.run_family(Family::new("list-macros", sp.size(), |i, a| sp.run(i, a)));
-    rep.run_family(Family::new("map-key-order", 15 * MAPMACROS.len() as u64, run_mapcase));
+    rep.run_family(Family::new("map-key-order", (KEYSETS.len() * 15 * MAPMACROS.len()) as u64, run_mapcase));
     rep.run_family(Family::new("map-failing-bodies", failbody_size(), run_failbody));
     rep.run_family(Family::new("typed-elements", typed_size(), run_typed));
     rep.run_family(Family::new("shadowed-programs", shadow_size(), run_shadow));
